@@ -25,9 +25,11 @@ RULE = ('Pairs as in C01 (n<=5000) plus a directed family with explicit stratum 
         'correction flag, x three generated heap histories (freed malloc chunks of the index-buffer size classes filled with '
         'row-like numbers, n, -1, 2^31, NaN, 1e300, far indices) applied in the worker before the call; two workers with '
         'different MALLOC_PERTURB_ bytes. Non-trivial = some stratum smaller than the quota or quota*#values < floor(r*n) '
-        '(the index buffer has an unwritten tail). r*n within 1e-4 of an integer is excluded (float32/float64 floor '
-        'ambiguity) and counted. Distinct = digest of (Y, X, r, c).')
-ASSUMPTIONS = ['numba-JITed code cannot be built with a sanitizer here: an out-of-bounds read is visible only through '
+        '(the index buffer has an unwritten tail). A directed class draws short-decimal / small-fraction ratios with row counts '
+        'that are multiples of 10/20/40, so that r*n sits next to an integer. Distinct = digest of (Y, X, r, c).')
+ASSUMPTIONS = ['r is the float32 ratio the estimator receives: floor(r*n) is the floor of the exact product of that float32 value '
+               'and n (float32 x n is exact in float64 for n < 2^29)',
+               'numba-JITed code cannot be built with a sanitizer here: an out-of-bounds read is visible only through '
                'termination, non-determinism under poisoned/perturbed heaps, or a score that differs from the model',
                'reference = anchored mechanism (sample entropies with original stratum weights, scaled by r)']
 
@@ -157,6 +159,10 @@ def directed_pair(draw):
     k = draw(st.integers(0, 2**32 - 1))
     ky = draw(st.integers(1, 8))
     order = draw(st.sampled_from(['blocked', 'shuffled']))
+    if draw(st.booleans()):
+        m = draw(st.sampled_from([10, 20, 40]))
+        pad = (-sum(sizes)) % m
+        sizes = sizes[:-1] + [sizes[-1] + pad]       # total row count a multiple of 10/20/40
     return {'strata': {'sizes': sizes, 'k': k, 'ky': ky, 'order': order}}
 
 
@@ -180,7 +186,13 @@ def c04_case(draw):
     _, X0 = materialize(case)
     n0, k0 = len(X0), len(set(X0.tolist()))
     lo = (k0 + 0.5) / n0 if n0 else 1.0
-    if lo < 0.99 and draw(st.integers(0, 3)) > 0:
+    mode = draw(st.integers(0, 5))
+    if mode == 5 and n0 >= 2:
+        # short decimals / small fractions: float32(r) lies just below or above a/b, so r*n sits next to an integer when b | n
+        b = draw(st.sampled_from([2, 4, 5, 8, 10, 20]))
+        a = draw(st.integers(1, b - 1))
+        case['r'] = float(np.float32(a / b))
+    elif lo < 0.99 and mode > 0:
         case['r'] = draw(st.floats(min_value=float(np.float32(lo)), max_value=float(np.float32(0.995)), width=32,
                                    allow_nan=False).map(lambda r: float(np.float32(r))))
     else:
@@ -197,13 +209,16 @@ def oracle(case, rec):
     Y, X = materialize(case)
     n = len(X)
     r, c = float(np.float32(case['r'])), bool(case['c'])
-    rn = r * n
-    if abs(rn - round(rn)) < 1e-4:
-        rec.cls('excluded:r*n-near-integer')
-        raise Inconclusive()
+    # r is the float32 value the estimator receives; float32 x n (< 2^29) is exact in float64, so floor(r*n) is determined
+    from fractions import Fraction
+    exact_final = int(Fraction(r) * n)
+    if abs(r * n - round(r * n)) < 1e-4:
+        rec.cls('r*n-within-1e-4-of-an-integer')
     Yl, Xl = Y.tolist(), X.tolist()
     values = sorted(set(Xl))
     q, final = rm.sample_quota(n, r, len(values))
+    if final != exact_final:
+        raise HarnessError(f'reference floor(r*n) {final} != exact {exact_final}')
     from collections import Counter
     cx = Counter(Xl)
     small_stratum = q > 0 and any(v < q for v in cx.values())
